@@ -52,8 +52,28 @@ def run_case(seed, kind=None):
     b = Builder()
     rec = {'desc': d, 'kind': last_kind(d), 'diffs': [], 'hash_problems': [], 'memo_problems': []}
     try:
-        layer = b.layer(d)
+        history = None
+        if d['k'] == 'chain' and len(d['layers']) >= 2 and d['layers'][-1]['k'] in ('filter', 'keep', 'drop', 'groupby', 'check_ids') \
+                and rng.random() < 0.3:
+            # the last layer is ONE object that was composed before with another dataset exposing the same ids and field names
+            # with other values, and evaluated there: at its position in this pipeline it must behave as an independent copy
+            up_desc = d['layers'][0] if len(d['layers']) == 2 else {'k': 'chain', 'flavour': 'chain', 'layers': d['layers'][:-1]}
+            shared = b.layer(d['layers'][-1])
+            try:
+                names = [f for f in rel.ref(up_desc).fields if f != 'id']
+                swap = {'k': 'transform', 'cls': 'HistSwap', 'fields': {f: {'args': [f], 'f': 'hist.' + f} for f in names},
+                        'params': {}, 'cargs': {}, 'defaults': {}, 'inherit': True}
+                decoy = b.layer(up_desc) >> b.layer(swap) >> shared
+                history = 'built'
+                decoy.ids
+                history = 'evaluated'
+            except Exception:
+                pass
+            layer = b.layer(up_desc) >> shared
+        else:
+            layer = b.layer(d)
         cerr = None
+        rec['history'] = history
     except Exception as e:
         cerr, layer = exc_name(e), None
     try:
@@ -224,6 +244,53 @@ def run_typed_ids(seed):
     return problems
 
 
+def run_byvalue_merge(seed):
+    """Merge of Sources with a field hashed by value (`hash_by_value`) whose underlying data changes between calls: for every
+    id, before and after every change, the merged dataset reports the value AND the node hash the owning dataset reports now
+    (C14: caches are shared with the unmerged dataset), also through a nested Merge and a Transform on top"""
+    rng = random.Random(seed)
+    n_parts = rng.randint(2, 3)
+    pool = rng.sample(rel.UNIVERSE, rng.randint(n_parts, min(6, len(rel.UNIVERSE))))
+    parts = [[] for _ in range(n_parts)]
+    for k, i in enumerate(pool):
+        parts[k % n_parts].append(i)
+    srcs = [{'k': 'source', 'cls': f'BV{j}', 'ids': ids, 'params': {}, 'cargs': {}, 'defaults': {},
+             'fields': {'t': {'args': ['i'], 'f': f'BV{j}.t', 'byvalue': True, 'table': [[[i], f'v0-{i}'] for i in ids]},
+                        'x': {'args': ['i'], 'f': f'BV{j}.x'}}}
+            for j, ids in enumerate(parts)]
+    d = {'k': 'merge', 'parts': srcs}
+    if n_parts == 3 and rng.random() < 0.5:
+        d = {'k': 'merge', 'parts': [{'k': 'merge', 'parts': srcs[:2]}, srcs[2]]}
+    problems = []
+    try:
+        b = Builder()
+        owners = [b.layer(s_) for s_ in srcs]
+        merged = b.layer(d)
+        fm = merged._compile('t')
+        fo = [o._compile('t') for o in owners]
+        for step in range(3):
+            order = list(pool)
+            rng.shuffle(order)
+            for i in order:
+                j = next(k for k, ids in enumerate(parts) if i in ids)
+                hv_m, hv_o = fm.get_hash(i)[0], fo[j].get_hash(i)[0]
+                v_m, v_o = canon(val_to_json(fm(i), b.world)), canon(val_to_json(fo[j](i), b.world))
+                if v_m != v_o:
+                    problems.append({'desc': d, 'msg': f'by-value field after {step} data changes: merged t({i!r}) = {v_m[:80]}, the owner returns {v_o[:80]}'})
+                    return problems
+                if hv_m != hv_o:
+                    problems.append({'desc': d, 'msg': f'by-value field after {step} data changes: the node hash Merge reports for t({i!r}) '
+                                                       f'is not the hash the owning dataset reports now (value {v_o[:60]})'})
+                    return problems
+            # the data behind some ids changes
+            for i in rng.sample(pool, rng.randint(1, len(pool))):
+                j = next(k for k, ids in enumerate(parts) if i in ids)
+                b.world.tables[f'BV{j}.t'][(i,)] = f'v{step + 1}-{i}'
+    except Exception as e:
+        problems.append({'desc': d, 'msg': 'Merge with a by-value field raised ' + exc_name(e) + ': ' + str(e)[:150]})
+    return problems
+
+
 def run_shard(args):
     seed, n, kinds = args
     recs = []
@@ -267,6 +334,10 @@ def run_shard(args):
             for p in run_typed_ids(seed * 11 + i):
                 oracle_bad.append({'desc': p['desc'], 'diffs': [['typed-ids', p['msg']]]})
         stats['typed_ids_cases'] = max(2, n // 5)
+        for i in range(max(2, n // 5)):
+            for p in run_byvalue_merge(seed * 13 + i):
+                hash_bad.append({'desc': p['desc'], 'problems': [p['msg']]})
+        stats['byvalue_merge_cases'] = max(2, n // 5)
     if kinds and 'check_ids' in kinds:
         for i in range(max(2, n // 5)):
             for p in run_dynamic_ids(seed * 7 + i):
